@@ -85,7 +85,7 @@ TINY['hier.edf'] = '''(edif hier (edifVersion 2 0 0) (edifLevel 0) (keywordMap (
   (cell top (cellType GENERIC) (view netlist (viewType NETLIST)
    (interface (port a (direction INPUT)) (port y (direction OUTPUT)))
    (contents
-    (instance u_sub (viewRef netlist (cellRef sub)))
+    (instance u_sub (viewRef netlist (cellRef sub (libraryRef work))))
     (instance u1 (viewRef netlist (cellRef INV (libraryRef prims))))
     (net a (joined (portRef a) (portRef I (instanceRef u_sub)) (portRef I (instanceRef u1))))
     (net y (joined (portRef y) (portRef O (instanceRef u_sub))))
